@@ -2,14 +2,14 @@
 from specs import ERR
 import C15 as _c
 import itertools
-def R(name, comp, shape, fsz, reqs, what):
-    d = ["-DNCH=3", "-DFCAP=8", "-DDOFF=2", "-DZS_MAX=8", "-DV_UTHASH_MODEL", "-DCOMP=%s" % comp, "-DFSZ=%d" % fsz, "-DCLR=0", "-DH_h14q"]
+def R(name, comp, shape, fsz, reqs, what, extra=()):
+    d = ["-DNCH=3", "-DFCAP=10", "-DDOFF=2", "-DZS_MAX=8", "-DZS_SIMPLE_DICT", "-DV_UTHASH_MODEL", "-DCOMP=%s" % comp, "-DFSZ=%d" % fsz, "-DCLR=0", "-DH_h14q"]
     for k, (cl, ul, v) in enumerate(shape, 1):
         d += ["-DCL%d=%d" % (k, cl), "-DUL%d=%d" % (k, ul), "-DV%d=%d" % (k, v)]
     for k in range(3):
         q, kind = reqs[k] if k < len(reqs) else (9, 0)
         d += ["-DQ%d=%d" % (k + 1, q), "-DK%d=%d" % (k + 1, kind)]
-    return dict(file="C15q.c", name="h14q-" + name, function="h14q", repo_srcs=_c._qsrcs, remove_bodies=_c._qrb, models=_c._qm, defines=d, unwind=66,
+    return dict(file="C15q.c", name="h14q-" + name, function="h14q", repo_srcs=_c._qsrcs, remove_bodies=_c._qrb, models=_c._qm, defines=d + list(extra), unwind=66,
                 unwindset=["comp_read.0:14"], what=what, timeout=600,
                 functions=["zck_get_chunk", "zck_get_chunk_data", "zck_get_chunk_comp_data", "comp_reset", "comp_init", "comp_read", "seek_data", "read_data"],
                 bounds="empty dictionary + 2 chunks (stored,declared)=%s, %s, request sequence (chunk,kind) %s with kind 0 = data, 1 = stored bytes; payload bytes symbolic" % (shape, comp, reqs))
@@ -20,10 +20,16 @@ _I = []
 for n, s in enumerate(_seqs):
     _I.append(R("z%d" % n, Z, _zs, 7, s, "zstd: request sequence %s" % (s,)))
     _I.append(R("n%d" % n, N, _ns, 5, s, "no compression: request sequence %s" % (s,)))
+_dx = ("-DCL0=2", "-DUL0=1", "-DM1=0x26", "-DM2=0x26")
+for n, s in enumerate([((0, 1), (1, 0), (2, 0)), ((2, 1), (1, 0), (2, 0)), ((1, 0), (0, 0), (2, 0)), ((2, 0), (1, 1), (1, 0))]):
+    _I.append(R("zd%d" % n, Z, _zs, 9, s, "zstd with a dictionary chunk: request sequence %s" % (s,), _dx))
+_nx = ("-DCL0=1", "-DUL0=1")
+for n, s in enumerate([((0, 1), (1, 0), (2, 0)), ((2, 0), (1, 0), (0, 0))]):
+    _I.append(R("nd%d" % n, N, _ns, 6, s, "no compression with a dictionary chunk: request sequence %s" % (s,), _nx))
 SPEC = {
     "explanation": "zck_get_chunk_data / zck_get_chunk_comp_data over request sequences of length 3 (concrete per instance, incl. repeats, the last chunk first, the empty "
                    "dictionary) on a valid file with symbolic payload: each answer is the chunk's slice / stored bytes with its size, whatever was requested before",
-    "outside": ["sequences longer than 3, files with a non-empty dictionary, more than two data chunks", "real libzstd"],
+    "outside": ["sequences longer than 3, more than two data chunks", "real libzstd"],
     "assumptions": ["valid file (frame markers as written, verdict 1)", "validate_current_chunk replaced by a recorder (real body: h15u / C09)", "context as zck_read_header leaves it"],
     "harnesses": _I,
 }
